@@ -19,7 +19,7 @@ func init() {
 	Register(&Check{Prop: "C04", Run: runC04, Replay: func(c *Ctx, cs *Case) { evalC04(c, cs) }})
 }
 
-var c04Classes = []int{gen.ClassPlain, gen.ClassQuoting, gen.ClassUnicode, gen.ClassControl, gen.ClassBullet, gen.ClassBlankEdge, gen.ClassPathHostile}
+var c04Classes = []int{gen.ClassPlain, gen.ClassQuoting, gen.ClassUnicode, gen.ClassControl, gen.ClassBullet, gen.ClassBlankEdge, gen.ClassPathHostile, gen.ClassCase}
 
 func runC04(c *Ctx) bool {
 	nMax := c.Pick(5, 7)
